@@ -130,7 +130,7 @@ CHECKS = {
     level='other',
     text=('Post-tokenisation step only: mesh_reader::get_cell_mesh runs from the LLVM IR on connectivity lists whose every entry is symbolic (0..2^31-1, what std::stoi delivers for [0-9]+ tokens), for all list lengths 0..6 (8 thorough), one and two (three) cells, '
           'point arrays of 0-4 points. irsym checks every access; accesses through symbolic offsets and into allocations of symbolic size are decided by z3 under the path condition. Per path: return with in-range local ids and copied existing points, or an exception '
-          'derived from std::exception; no access outside a live object; all paths terminate. Memory reports are replayed natively under valgrind at the solver model. Second part: the parameter reader on files in which one element is empty (<tag></tag>, every tag in turn, tinyxml2 navigation as environment table as in C18): every path ends in acceptance or an exception derived from std::exception, never in std::terminate. Byte-level parsing (regex, getline, stoi/strtod, tinyxml2 internals), get_cell_types and the initializer cross-checks are not encoded.'),
+          'derived from std::exception; no access outside a live object; all paths terminate. Memory reports are replayed natively under valgrind at the solver model. Second part: the parameter reader on files in which one element is empty (<tag></tag>, every tag in turn, tinyxml2 navigation as environment table as in C18): every path ends in acceptance or an exception derived from std::exception, never in std::terminate. Third part: the cross-checks of simulation_initializer (cell count vs number of type ids, type id range, at least one face type) run for real with the file-level pieces replaced by stand-ins and the type ids of the mesh file symbolic: start-up completes with every cell built from a cell type of the parameter list or throws an exception derived from std::exception, no out-of-bounds index. Byte-level parsing (regex, getline, stoi/strtod, tinyxml2 internals) is not encoded.'),
     note='Trusted: clang lowering (validated per run), irsym memory model incl. symbolic addresses/allocation sizes, libstdc++ containers executed from the IR (red-black tree helpers re-implemented in shims.cpp), z3; valgrind as replay oracle only.',
     technique='symbolic execution of LLVM IR with solver-decided bounds of symbolic offsets and allocation sizes (z3, integer arithmetic); native replay under valgrind',
     design='3/C17'),
@@ -145,9 +145,9 @@ CHECKS = {
     design='3/C18'),
  'C19': dict(
     level='other',
-    text=('Numbering law only: the real solver::save_mesh and the integrator\'s time advance run from the LLVM IR over k iterations with symbolic dt and S. Exact reals (z3 with to_int): every feasible numbering sequence '
+    text=('Numbering law and statistics cadence: the real solver::save_mesh and the integrator\'s time advance run from the LLVM IR over k iterations with symbolic dt and S. Exact reals (z3 with to_int): every feasible numbering sequence '
           'starts at 1, never decreases, has no gap and ends within two of T/S+1, and simulated time is j*dt. IEEE doubles (cbmc on the path DAG): per path, search for a wrong first number, a decrease or a gap; counterexamples are '
-          'replayed natively with the real mesh writer. One open known finding (gap when S is within a few ulp of dt). File contents, CSV shape and statistics are not covered.'),
+          'replayed natively with the real mesh writer. One open known finding (gap when S is within a few ulp of dt). Statistics cadence: the real solver::run() on one static cell with the duration symbolic - every iteration count 1..60 (160 thorough) is a path - must call the statistics writer for iterations 0, 50, 100, ... and for the last one, once each. File contents, CSV shape and the values written are not covered.'),
     note='Trusted: clang lowering (validated), irsym, z3, cbmc --floatbv. Bounds: k=6 (exact) / 4 (IEEE) iterations quick, 12 / 6 thorough; 0 < dt <= S, 1e-9 <= dt, S <= 1e6 for IEEE. The reading of "K within one of T/S+1" is stated in the evidence assumptions.',
     technique='symbolic execution of LLVM IR; z3 mixed integer/real arithmetic; bit-precise path DAG -> C -> cbmc; native replay',
     design='3/C19'),
